@@ -314,3 +314,29 @@ package core
 //@   requires [restart!init] ghost(repairphase)
 //@   ensures [rmrepair]  !old(@select(@select(ghost(kvhas), ref(chain.hashDB)), bytes(addBlockMark))) && old(@select(@select(ghost(kvhas), ref(chain.hashDB)), bytes(removeBlockMark))) && decodableBlock(old(@select(@select(ghost(kv), ref(chain.hashDB)), bytes(removeBlockMark)))) ==> ghost(rmstarts) == old(ghost(rmstarts)) + 1
 //@   ensures [addrepair] old(@select(@select(ghost(kvhas), ref(chain.hashDB)), bytes(addBlockMark))) && decodableBlock(old(@select(@select(ghost(kv), ref(chain.hashDB)), bytes(addBlockMark)))) ==> ghost(rmstarts) >= old(ghost(rmstarts)) + 1
+
+// AddGroup (C19): a group is appended only as the successor of the current last group - the in-memory last group
+// is the last id of the stored sequence ([last], part of the representation invariant) and the group's PreGroup
+// must be that id; this is what save's [link] precondition demands.
+//@ func ext_busPublish
+//@   option trusted extern=(*com.tuntun.rangers/node/src/middleware/notify.Bus).Publish
+//@   modifies nothing
+
+//@ func ext_getGroupWorkDuration
+//@   option trusted extern=com.tuntun.rangers/node/src/common.GetGroupWorkDuration
+//@   modifies nothing
+
+//@ func ext_errorsIs
+//@   option trusted extern=errors.Is
+//@   modifies nothing
+
+//@ func groupChain.AddGroup
+//@   property C19
+//@   option maypanic
+//@   requires chain != nil && typeid(chain.groups) != 0 && ref(chain.groups) != 0 && chain.count < 4611686018427387903 && typeid(consensusHelper) != 0
+//@   requires [wf]   @gcWF(@select(ghost(kv), ref(chain.groups)), @select(ghost(kvhas), ref(chain.groups)), @gids, chain.count, bytes("gcurrent"), bytes("gcount"))
+//@   requires [last] chain.count >= 1 && chain.lastGroup != nil && bytes(chain.lastGroup.Id) == @select(@gids, chain.count - 1)
+//@   requires [ids]  group != nil ==> group.Header != nil && @isGroupId(bytes(group.Id))
+//@   ensures [tip]   result == nil ==> group != nil && old(bytes(group.Header.PreGroup)) == old(@select(@gids, chain.count - 1))
+//@   ensures [fail]  result != nil ==> ghost(kv) == old(ghost(kv)) && ghost(kvhas) == old(ghost(kvhas)) && chain.count == old(chain.count)
+//@   modifies chain.count, chain.lastGroup, group.GroupHeight, group.Header.WorkHeight, group.Header.DismissHeight, ghost(kv), ghost(kvhas)
